@@ -31,6 +31,7 @@ BATCHES = {
     "bs2": ["N[C@H](C)C(=O)OC>>N[C@H](C)C(=O)O", "C[C@@H](O)CC(=O)OCC>>C[C@@H](O)CC(=O)O"],
     "bo1": ["CC(=O)OCC>>CCO", "CCBr.[OH-]>>CCO"],
     "bo2": ["CCOC(C)=O>>OCC", "[OH-].BrCC>>OCC"],
+    "b4": ["CC(=O)Nc1ccccc1>>Nc1ccccc1", "CCO>>CCO"],     # MCS confidence 0.392
     "bo3": ["[CH3:1][C:2](=[O:3])[O:4][CH2:5][CH3:6]>>[CH3:6][CH2:5][OH:4]", "CCBr.[OH-]>>CCO"],
 }
 # rows that carry further columns (a previous run's output fed back in, a CSV with metadata): the columns the
@@ -48,6 +49,10 @@ CFGS = {"t0": {"threshold": 0, "col": "reaction", "bs": 2, "keycfg": "t0"},
         "t5": {"threshold": 0.5, "col": "reaction", "bs": 2, "keycfg": "t5"},
         "t9": {"threshold": 0.9, "col": "reaction", "bs": 2, "keycfg": "t9"},
         "c0": {"threshold": 0, "col": "rxn", "bs": 2, "keycfg": "c0"},
+        # two thresholds closer together than the three decimals a confidence is reported with
+        "ta": {"threshold": 0.3916, "col": "reaction", "bs": 2, "keycfg": "ta"},
+        "tb": {"threshold": 0.3924, "col": "reaction", "bs": 2, "keycfg": "tb"},
+        "tc": {"threshold": 0.39199, "col": "reaction", "bs": 2, "keycfg": "tc"},
         "n0": {"threshold": 0, "col": "reaction", "bs": None, "keycfg": "t0"},
         "n5": {"threshold": 0.5, "col": "reaction", "bs": None, "keycfg": "t5"}}
 
